@@ -234,6 +234,36 @@ func confirmAndMinimise(pw *parserWorld, req parsersim.Request, v parsersim.Viol
 			i++
 		}
 	}
+	// concurrent cases: drop whole clients, then single calls
+	if len(best.Clients) > 0 {
+		for i := 0; i < len(best.Clients) && len(best.Clients) > 1 && time.Now().Before(deadline); {
+			rq := best
+			rq.Clients = append(append([][]parsersim.Call(nil), best.Clients[:i]...), best.Clients[i+1:]...)
+			rq.UseReplay, rq.Replay = false, nil // another set of clients is another schedule space
+			if x := try(&rq); x != nil {
+				best, got = rq, x
+			} else {
+				i++
+			}
+		}
+		for i := 0; i < len(best.Clients) && time.Now().Before(deadline); i++ {
+			for j := 0; j < len(best.Clients[i]) && len(best.Clients[i]) > 1 && time.Now().Before(deadline); {
+				rq := best
+				cl := append([][]parsersim.Call(nil), best.Clients...)
+				cl[i] = append(append([]parsersim.Call(nil), best.Clients[i][:j]...), best.Clients[i][j+1:]...)
+				rq.Clients = cl
+				rq.UseReplay, rq.Replay = false, nil
+				if x := try(&rq); x != nil {
+					best, got = rq, x
+				} else {
+					j++
+				}
+			}
+		}
+		if !best.UseReplay && len(got.Choices) > 0 {
+			best.UseReplay, best.Replay = true, got.Choices
+		}
+	}
 	// options toward defaults
 	simpl := []func(*parsersim.Request){
 		func(r *parsersim.Request) { r.Call.Opts.Debug = false },
